@@ -136,6 +136,34 @@ def run_case(case):
                                             bad("L1 predict not a nearest centre", cond, desc)
                                     except Exception as e:
                                         bad("L1 predict/transform raises %s" % type(e).__name__, cond, "%s %s" % (e, desc))
+                                    # queries in the other float width than the training data; the float64 ones sit 1e-9 off the
+                                    # bisector of two centres (not representable in float32): the distances are those of the
+                                    # query as given, and the 1e-9 decides which centre is nearest
+                                    if not affine and iarr is None and n_init == 1:
+                                        other = numpy.float64 if dtype is numpy.float32 else numpy.float32
+                                        C64 = C.astype(numpy.float64)
+                                        qs = [probes64]
+                                        if other is numpy.float64:
+                                            qs.append(probes64 + 1e-9)
+                                            for a_ in range(k):
+                                                for b_ in range(a_ + 1, k):
+                                                    mid = (C64[a_] + C64[b_]) / 2
+                                                    step = numpy.sign(C64[b_] - C64[a_]) * 1e-9
+                                                    qs.append(numpy.array([mid + step, mid - step]))
+                                        Q = numpy.vstack(qs).astype(other)
+                                        ccond = cond + ",fit %s query %s" % (numpy.dtype(dtype).name, numpy.dtype(other).name)
+                                        try:
+                                            plq = numpy.asarray(m.predict(Q))
+                                            Tq = numpy.asarray(m.transform(Q))
+                                            DQ = _man(Q, C)
+                                            if Tq.shape != DQ.shape or numpy.abs(Tq - DQ).max() > (1e-12 if other is numpy.float64 else 1e-5):
+                                                bad("L1 transform != Manhattan distances", ccond, "max diff %r %s" % (numpy.abs(Tq - DQ).max(), desc))
+                                            if (DQ[numpy.arange(len(Q)), plq] > DQ.min(axis=1) + (1e-13 if other is numpy.float64 else tolu)).any():
+                                                i_ = int(numpy.argmax(DQ[numpy.arange(len(Q)), plq] - DQ.min(axis=1)))
+                                                bad("L1 predict not a nearest centre", ccond, "query %r -> centre %d, distances %r %s" % (
+                                                    Q[i_].tolist(), plq[i_], DQ[i_].tolist(), desc))
+                                        except Exception as e:
+                                            bad("L1 predict/transform raises %s" % type(e).__name__, ccond, "%s %s" % (e, desc))
                             # ---------------- L2
                             if oi == 0 and not affine:
                                 cnt += 1
